@@ -643,6 +643,45 @@ func c01Literals(r *core.Run, p *route.Parser) {
 	})
 }
 
+// c01Captures: capture limits of every kind (absent, zero and negative = unlimited, one, two, three, the ends of
+// the integer range) on a match-all in the middle and at the end of a route, one route per tree, every path of
+// up to five segments over {a, b, c}.
+func c01Captures(r *core.Run, p *route.Parser) {
+	var texts []string
+	for _, n := range []string{"-1", "0", "1", "2", "3", "-2", "-9223372036854775808", "9223372036854775807"} {
+		texts = append(texts, "/a/{m: **, capture: "+n+"}/c", "/{m: **, capture: "+n+"}", "/a/{m: **, capture: "+n+"}", "/{m: **, capture: "+n+"}/c/?b")
+	}
+	cat, bad := mkCatalogue(p, texts)
+	r.Notes["capture_routes_unparseable(C06)"] = len(bad)
+	paths := pathsOver([]string{"a", "b", "c"}, 5, []string{"/a//c", "/a/b//c", "//a/b/c", "/a/c/"})
+	r.Bounds["capture_limits"] = fmt.Sprintf("%d routes (four shapes x eight capture values) x %d paths", len(cat), len(paths))
+	r.Parallel(func(w, nw int, l *core.Local) {
+		env := &c01Env{m: ref.NewMatcher()}
+		for ci := w; ci < len(cat); ci += nw {
+			if r.Expired() {
+				return
+			}
+			tree, trie, reg, usable := c01Build([]catRoute{cat[ci]})
+			if !usable || len(reg) != 1 {
+				l.Extra["configs_skipped_registration_verdict_differs(C08)"]++
+				continue
+			}
+			l.States++
+			for _, pth := range paths {
+				l.Evals++
+				l.Transitions++
+				l.Traces++
+				l.NonTrivial++
+				bad, key, class, _ := c01Eval(env, tree, trie, pth)
+				l.Class(class)
+				if bad != "" {
+					l.Violate("tree/"+key+"/capture-limit", bad+fmt.Sprintf(" [route %q, path %q]", cat[ci].Text, pth), c01Case{Routes: []string{cat[ci].Text}, Path: pth})
+				}
+			}
+		}
+	})
+}
+
 func c01Run(r *core.Run) {
 	p, err := route.NewParser()
 	if err != nil {
@@ -690,6 +729,7 @@ func c01Run(r *core.Run) {
 	r.Bounds["path_alphabet"] = alpha
 
 	c01Literals(r, p)
+	c01Captures(r, p)
 	c01Configs(r, full, 1, pathsLong, "single")
 	if r.Thorough() {
 		c01Configs(r, small, 2, pathsLong, "pairs(2seg catalogue, long paths)")
